@@ -93,6 +93,9 @@ type Inst struct {
 	// was cancelled; a stop call's wait for the run's goroutines lasts that long
 	PromoteLinger time.Duration `json:"promote_linger,omitempty"`
 	NoMetrics bool          `json:"no_metrics,omitempty"`
+	// CorrID: the contexts handed to Start carry a "correlation_id" value (the library's documented way to
+	// tag its log lines)
+	CorrID bool `json:"corr_id,omitempty"`
 
 	Lat          []time.Duration `json:"lat"` // request/response latencies, consumed round-robin by this instance's store operations
 	Rules        []OpRule        `json:"rules,omitempty"`
